@@ -208,6 +208,9 @@ size_t count_word_ci(const std::string &hay, const char *needle) {
 struct WorkMonitor : HookSink {
   long long cnt[20] = {0};
   long long bytes = 0, ndefs_bound = 2, budget = 1024;
+  bool has_includes = false;   // a file (the hidden standard-macro file too) may then be included several times: its definitions count once per inclusion
+  // number of definitions the stream can hold: what the text shows, or - with includes - what the scanned tokens allow (a definition is at least 4 tokens)
+  long long defs_eff() const { return has_includes ? std::max(ndefs_bound, scan_tokens / 4 + 2) : ndefs_bound; }
   long long scan_limit = 0;
   long long detect_in_pass = 0, pass_len = 0, lr_in_start = 0, lr_limit = 0, table_events = 0;
   long long final_len = -1, max_len = 0, scan_tokens = 0;
@@ -242,7 +245,7 @@ struct WorkMonitor : HookSink {
       case MACRO_PASS_END: final_len = a; if (a > max_len) max_len = a; break;
       case MACRO_DETECT: {
         detect_in_pass++;
-        long long lim = (ndefs_bound + 4) * (pass_len + 2);
+        long long lim = (defs_eff() + 4) * (pass_len + 2);
         if (detect_in_pass > lim) over(site, detect_in_pass, lim);
         lr_in_start = 0; lr_limit = 32 * (b - a + 16);
         break;
@@ -253,7 +256,7 @@ struct WorkMonitor : HookSink {
         break;
       case LR_FIRST_ROUND: case LR_HULL_ROUND: case LR_ELEMENTS: {
         table_events++;
-        long long lim = (ndefs_bound + 4) * 2 * (4000000LL + 20000LL * bytes);
+        long long lim = (defs_eff() + 4) * 2 * (4000000LL + 20000LL * bytes);
         if (table_events > lim) over(site, table_events, lim);
         break;
       }
@@ -442,6 +445,7 @@ struct FsWorld {
     size_t defs = 2;
     for (auto &kv : files) { bytes += (long long)kv.second.size(); defs += count_word_ci(kv.second, "def"); }
     mon.bytes = bytes; mon.ndefs_bound = (long long)defs; mon.budget = 1024;
+    for (auto &kv : files) if (count_word_ci(kv.second, "include") > 0) mon.has_includes = true;
     // of 11 600 quick C02 runs 49 needed more than 300 000 LR actions and 48 of those ended abandoned at the other caps anyway
     if (mon.lr_total_cap > 400000) mon.lr_total_cap = 400000;
     mon.scan_limit = (bytes + 64) * 64;
@@ -715,7 +719,7 @@ struct FsWorld {
       std::set<std::string> all;
       for (auto &kv : st) all.insert(kv.first);
       Model mm = model(all, main, true);
-      cm.bytes = bytes; cm.ndefs_bound = 8; cm.scan_limit = 2 * mm.tokens + 256;
+      cm.bytes = bytes; cm.ndefs_bound = 8; cm.has_includes = true; cm.scan_limit = 2 * mm.tokens + 256;
       bool ok = false;
       {
         HookGuard hg(&cm);
